@@ -3,7 +3,7 @@
 set -u
 id="$1"; w=${2:-/tmp/wt}/$id; off=${3:-0}
 export GOFLAGS=-mod=mod GOPROXY=off GOSUMDB=off GOTOOLCHAIN=local
-for i in 1 2 3; do
+for i in 1 2 3 4 5; do
   [ -f $w/change$i.diff ] || continue
   d=/verif/seeded/$id-$((i+off)); mkdir -p $d
   cp $w/change$i.diff $d/patch.diff; cp $w/demo${i}_test.go.txt $d/demo_test.go.txt 2>/dev/null
